@@ -421,6 +421,7 @@ int ZCK_PUBLIC_API zck_validate_data_checksum(zckCtx *zck) {
     if(!hash_init(zck, &(zck->check_full_hash), &(zck->hash_type)))
         return 0;
     char buf[BUF_SIZE] = {0};
+    bool truncated = false;
     zckChunk *idx = zck->index.first;
     zck_log(ZCK_LOG_DEBUG, "Checking full hash");
     while(idx) {
@@ -429,15 +430,25 @@ int ZCK_PUBLIC_API zck_validate_data_checksum(zckCtx *zck) {
             size_t rb = BUF_SIZE;
             if(rb > to_read)
                 rb = to_read;
-            if(!read_data(zck, buf, rb))
+            ssize_t rd = read_data(zck, buf, rb);
+            if(rd < 0)
                 return 0;
-            if(!hash_update(zck, &(zck->check_full_hash), buf, rb))
+            if(rd > 0 && !hash_update(zck, &(zck->check_full_hash), buf, rd))
                 return 0;
+            if((size_t)rd != rb) {
+                /* The file is shorter than the index says */
+                truncated = true;
+                break;
+            }
             to_read -= rb;
         }
+        if(truncated)
+            break;
         idx = idx->next;
     }
     int ret = validate_file(zck, ZCK_LOG_WARNING);
+    if(ret == 1 && truncated)
+        ret = -1;
     if(!seek_data(zck, zck->data_offset, SEEK_SET))
         return 0;
     if(!hash_init(zck, &(zck->check_full_hash), &(zck->hash_type)))
